@@ -860,7 +860,7 @@ func TestC07(t *testing.T) {
 		ok := true
 		for rep := 0; rep < 2 && ok; rep++ {
 			sub := &c07Run{traces: map[string]bool{}}
-			sub.runCase(pool.get(0), cd.Case)
+			sub.runCase(pool.get(axFreshIndex()), cd.Case) // fresh server per confirmation
 			ok = false
 			for _, c2 := range sub.cands {
 				ok = ok || c2.Sig == cd.Sig
